@@ -418,6 +418,65 @@ def check_reuse(acc, b, ifac, imws, o1, o2):
     check_tree(acc, b, trees[0], 'REUSE', 'constructor', (inner_app, inner_insts))
 
 
+def check_stock_defaults(acc):
+    """An inner application whose stock context processor has a *defaulted* name; the name is on offer only further
+    out (a resource of the middle / outermost application, or a binding of the embedding prefix).  Nested and flat
+    declarations hand the same value to the processor."""
+    import itertools
+    import json
+    from clastic import Application, Route, SubApplication, render_json
+    from clastic.middleware import ContextProcessor, SimpleContextProcessor
+    from mc import wsgi
+
+    def profile():
+        return {'page': 'profile'}
+
+    def get(app, path):
+        r = wsgi.call(app, path, 'GET')
+        try:
+            return r.code, json.loads((r.body or b'').decode('utf-8')), r.raised
+        except ValueError:
+            return r.code, (r.body or b'')[:80], r.raised
+    for proc, source, depth, mwlevel, twice in itertools.product(('ctx', 'simple'), ('outer-res', 'mid-res', 'prefix', 'none'), (1, 2),
+                                                                 ('app', 'route'), (False, True)):
+        if source == 'mid-res' and depth == 1:
+            continue
+        acc.evaluated += 1
+        acc.validated += 1
+        acc.transitions += 3
+        acc.add('nontrivial')
+        mk = (lambda: ContextProcessor(defaults={'user': 'anonymous'})) if proc == 'ctx' else (lambda: SimpleContextProcessor(user='anonymous'))
+        case = {'layer': 'STOCK-DEFAULTS', 'proc': proc, 'source': source, 'depth': depth, 'mwlevel': mwlevel, 'twice': twice}
+        try:
+            p = mk()
+            inner = Application([Route('/profile', profile, render_json, middlewares=[p] if mwlevel == 'route' else [])],
+                                middlewares=[p] if mwlevel == 'app' else [])
+            alone = get(inner, '/profile')
+            mid = inner
+            if depth == 2:
+                mid = Application([('/account', inner)], resources={'user': 'bob'} if source == 'mid-res' else {})
+            prefix = '/<user>' if source == 'prefix' else '/site'
+            if twice:
+                # the same inner application is first embedded somewhere the name is not on offer
+                Application([SubApplication('/elsewhere', mid)])
+            outer = Application([SubApplication(prefix, mid)], resources={'user': 'bob'} if source == 'outer-res' else {})
+            full = prefix + ('/account' if depth == 2 else '') + '/profile'
+            flat = Application([Route(full, profile, render_json, middlewares=[mk()])],
+                               resources={'user': 'bob'} if source in ('outer-res', 'mid-res') else {})
+        except Exception as e:
+            acc.violation('C10:stock-defaults:construct', 'construction raised %r; %r' % (e, case), case)
+            continue
+        path = full.replace('<user>', 'bob')
+        want_user = 'anonymous' if source == 'none' else 'bob'
+        n_res, f_res = get(outer, path), get(flat, path)
+        acc.outcome('stock-defaults|%s|200|rendered' % source)
+        if alone[1] != {'page': 'profile', 'user': 'anonymous'}:
+            acc.violation('C10:stock-defaults:alone', 'the inner application on its own answers %r; %r' % (alone, case), case)
+        elif n_res != f_res or f_res[1] != {'page': 'profile', 'user': want_user}:
+            acc.violation('C10:stock-defaults:nested-vs-flat', 'nested declaration answers %r, flat declaration %r, the name %s; %r'
+                          % (n_res, f_res, 'is not on offer anywhere' if source == 'none' else 'is on offer as ' + source, case), case)
+
+
 def nshards(tier):
     return 32 if tier == 'quick' else 64
 
@@ -440,6 +499,8 @@ def shard(tier, i, n, seed):
             acc.add('trees')
             if k % 1777 == i:
                 acc.sample({'layer': name, 'tree': describe(levels)})
+    if i == 2 % n:
+        check_stock_defaults(acc)
     for j, (ifac, imws, o1, o2) in enumerate(reuse_cases()):
         if j % n != i:
             continue
@@ -467,6 +528,10 @@ def replay(case):
     common.setup_repo()
     acc = common.Acc()
     b = Builder()
+    if case.get('layer') == 'STOCK-DEFAULTS':
+        check_stock_defaults(acc)
+        bad = [v for v in acc.violations if v['case'] == case]
+        return (False, bad[0]['desc'][:3000]) if bad else (True, 'ok')
     if case.get('layer') == 'REUSE':
         for ifac, imws, o1, o2 in reuse_cases():
             check_reuse(acc, b, ifac, imws, o1, o2)
